@@ -113,6 +113,11 @@ structure Cfg where
   bConst : Bool
   /-- `false`: helpers of the pinned tree; `true`: helpers with the `b == -1` repair -/
   guardMinusOne : Bool
+  /-- `false`: call-site guard of the pinned tree (`sizeof(T) == sizeof(long)`, inside the zero-check block);
+  `true`: `DivNode.minus1_check` (every signed width, constant divisors too, outside the zero-check block).
+  The `overflowcheck` directive is assumed off (with it the guard is also emitted under cdivision, and the
+  division itself goes through the `Overflow.c` helpers, which belong to C04). -/
+  guardAllWidths : Bool
   deriving DecidableEq, Repr
 
 def toOut : Except String Int → Out
@@ -126,10 +131,21 @@ def Cfg.zeroCheck (c : Cfg) (b : Int) : Bool := !c.cdivision && (!c.bConst || b 
 /-- `DivNode.generate_evaluation_code`: `cdivision = directive or type.is_float or not type.signed`. -/
 def Cfg.useC (c : Cfg) : Bool := c.cdivision || !c.ty.signed
 
-/-- The `else if (sizeof(T) == sizeof(long) && b == -1 && __Pyx_UNARY_NEG_WOULD_OVERFLOW(a))` guard
-(emitted inside `if self.zerodivision_check:` for signed integer types and operators other than `%`). -/
+/-- `__PYX_MIN(T)` (`Overflow.c`): `IS_UNSIGNED(T) ? 0 : 0 - HALF_MAX(T) - HALF_MAX(T)`,
+`HALF_MAX(T) = ((T) 1) << (sizeof(T) * 8 - 2)`. -/
+def pyxMin (t : CTy) : Int := if t.signed then 0 - 2 ^ (t.w - 2) - 2 ^ (t.w - 2) else 0
+
+/-- `DivNode.minus1_check` for `//` with `overflowcheck` off: `type.is_int and type.signed and
+(python_division or overflowcheck) and not (operand2 has an int constant_result != -1)`. -/
+def Cfg.minus1Check (c : Cfg) (b : Int) : Bool :=
+  c.ty.signed && !c.cdivision && !(c.bConst && b != -1)
+
+/-- The `OverflowError("value too large to perform division")` guard of `//` (never emitted for `%`).
+Old: `else if (sizeof(T) == sizeof(long) && b == -1 && __Pyx_UNARY_NEG_WOULD_OVERFLOW(a))` inside
+`if self.zerodivision_check:`.  New: `[else] if (b == -1 && a == __PYX_MIN(T))` whenever `minus1_check`. -/
 def Cfg.overflowGuard (c : Cfg) (a b : Int) : Bool :=
-  c.zeroCheck b && c.ty.signed && c.ty.w == c.wl && b == -1 && negWouldOverflow c.wl a
+  if c.guardAllWidths then c.minus1Check b && b == -1 && a == pyxMin c.ty
+  else c.zeroCheck b && c.ty.signed && c.ty.w == c.wl && b == -1 && negWouldOverflow c.wl a
 
 /-- Generated code for `a // b` with result type `c.ty`. -/
 def genDiv (c : Cfg) (a b : Int) : Out :=
@@ -149,18 +165,20 @@ def parseBool? : String → Option Bool
   | "1" => some true
   | _ => none
 
-/-- Line protocol: `<div|mod> w signed wl cdivision bConst fix a b`; operands outside the type are rejected. -/
+/-- Line protocol: `<div|mod> w signed wl cdivision bConst guardMinusOne guardAllWidths a b`;
+operands outside the type are rejected. -/
 def handle : List String → String
-  | [op, w, s, wl, cd, bc, fx, a, b] =>
-    match parseNat? w, parseBool? s, parseNat? wl, parseBool? cd, parseBool? bc, parseBool? fx,
+  | [op, w, s, wl, cd, bc, fx, ga, a, b] =>
+    match parseNat? w, parseBool? s, parseNat? wl, parseBool? cd, parseBool? bc, parseBool? fx, parseBool? ga,
           parseInt? a, parseInt? b with
-    | some w, some s, some wl, some cd, some bc, some fx, some a, some b =>
-      let c : Cfg := { ty := { w := w, signed := s }, wl := wl, cdivision := cd, bConst := bc, guardMinusOne := fx }
+    | some w, some s, some wl, some cd, some bc, some fx, some ga, some a, some b =>
+      let c : Cfg := { ty := { w := w, signed := s }, wl := wl, cdivision := cd, bConst := bc,
+                       guardMinusOne := fx, guardAllWidths := ga }
       if w < 2 ∨ ¬ c.ty.InRange a ∨ ¬ c.ty.InRange b then "bad-op"
       else if op = "div" then (genDiv c a b).render
       else if op = "mod" then (genMod c a b).render
       else "bad-op"
-    | _, _, _, _, _, _, _, _ => "bad-op"
+    | _, _, _, _, _, _, _, _, _ => "bad-op"
   | _ => "bad-op"
 
 end CyVerif.C03
